@@ -26,6 +26,9 @@ def vectors(kind):
         return [dict(BASE), dict(BASE, inline_functions=False), dict(BASE, inline_functions=False, use_push_pop_functions=True),
                 dict(BASE, inline_functions=False, tail_call_optimization=True), dict(BASE, use_push_pop_functions=True, tail_call_optimization=True),
                 dict(BASE, inline_functions=False, compact=True, remove_labels=True), dict(BASE, inline_functions=False, compact=True)]
+    if kind == "inline-only":
+        # inlining stays on: a function with one call site is inlined, so no function region follows the main code
+        return [dict(BASE), dict(BASE, compact=True), dict(BASE, original_code_as_comment=True), dict(BASE, generated_comments=False, remove_labels=True)]
     if kind == "version":
         # the version note is appended to emitted text of every layout (comments on/off, source as comment, compact)
         v = {"append_version": True}
@@ -285,6 +288,10 @@ def full_task(task):
                 fail("C02", "differs from the source semantics (other vectors agree with it): " + d if first is not None else d, opts, res, machine_status=m.status)
         elif first is None:
             first = (opts, res)
+        if d and "C07" in want and gkw.get("terminating") and ref_status == "end" and (len(m.trace) > len(ref_trace) or m.status in ("steps", "ticks")) \
+                and all(H.same_event(a, b) for a, b in zip(m.trace, ref_trace)):
+            # the source's top-level code ended after len(ref_trace) effects; the chip went on (more effects, or still running)
+            fail("C07", f"after the top-level script ended ({len(ref_trace)} effects) the chip went on: {len(m.trace)} effects, final status {m.status}", opts, res)
         if "C06" in want:
             for r in check_calls(m):
                 fail("C06", r, opts, res)
